@@ -185,7 +185,23 @@ func zzvC02Count(res *vrep.Result, base string, cs zzvC02Case, mode string, begi
 	content, readable := u.installMode(mode)
 	m := zzvReadModeRef(content, readable)
 	cf := u.writeCount(zzvOKBuild, begin, end, map[string]uint64{"c": 3, "zz": 4})
+	// A second file of the same week that began two days later: "all of it collected
+	// strictly after the opt-in date" is decided by the earliest begin.
+	u.writeCount(ref.Build{"example.com/p1", "v1.0.0", "go1.21.0", "linux", "arm64"}, begin.Add(2*zzvDay), end, map[string]uint64{"c": 5})
 	week := end.Format("2006-01-02")
+	// Reports of other weeks and of this week that exist already (mode off must leave all of it alone).
+	if strings.HasPrefix(mode, "off") {
+		old := end.Add(-7 * zzvDay).Format("2006-01-02")
+		os.WriteFile(filepath.Join(u.td.UploadDir(), old+".json"), []byte("{}"), 0o666)
+		os.WriteFile(filepath.Join(u.td.LocalDir(), "local."+old+".json"), []byte("{}"), 0o666)
+		switch cs.Sample {
+		case "X=rate":
+			os.WriteFile(filepath.Join(u.td.UploadDir(), week+".json"), []byte("{}"), 0o666)
+		case "X>rate":
+			os.WriteFile(filepath.Join(u.td.LocalDir(), week+".json"), []byte("{}"), 0o666)
+			os.WriteFile(filepath.Join(u.td.LocalDir(), "local."+week+".json"), []byte("{}"), 0o666)
+		}
+	}
 	zzvInstall(zzvSimpleConfig(sample), "v1.2.3", x)
 	before := u.dataFiles()
 	err, pan := u.run(start)
